@@ -79,6 +79,12 @@ func genHist(t *rapid.T) CaseHist {
 		inner := &gkit.Spec{Mode: "pregel", In: "S", Out: "S", State: rapid.Bool().Draw(t, "innerState"),
 			Nodes: []gkit.NodeSpec{{Key: "a", Kind: "lambda", In: "S", Digest: true}, {Key: "b", Kind: "lambda", In: "S", Digest: true}},
 			Edges: []gkit.Edge{{From: "start", To: "a"}, {From: "a", To: "b"}, {From: "b", To: "end"}}}
+		if rapid.Bool().Draw(t, "sameKeys") {
+			// the innermost graph uses the node keys of the middle graph (keys are per graph; a checkpoint of one
+			// level must never be read by another)
+			inner.Nodes[0].Key, inner.Nodes[1].Key = "g", "l"
+			inner.Edges = []gkit.Edge{{From: "start", To: "g"}, {From: "g", To: "l"}, {From: "l", To: "end"}}
+		}
 		if inner.State {
 			inner.Nodes[0].PS = rapid.Bool().Draw(t, "psA")
 			inner.Nodes[1].PostH = []string{"", "v"}[rapid.IntRange(0, 1).Draw(t, "postB")]
@@ -94,7 +100,7 @@ func genHist(t *rapid.T) CaseHist {
 		c.Input = gkit.GenInput(t, "S")
 		addInterrupts(t, c.Spec, 50)
 		if len(inner.IntBefore)+len(inner.IntAfter) == 0 {
-			inner.IntAfter = []string{"a"}
+			inner.IntAfter = []string{inner.Nodes[0].Key}
 		}
 	} else {
 		mode := []string{"pregel", "pregel", "dag", "workflow"}[rapid.IntRange(0, 3).Draw(t, "mode")]
